@@ -17,6 +17,7 @@ theorem NodesOk.ext {g : GraphVal} {ss : SpecSt} {st st' : EncSt} (h : NodesOk g
   exact he _ _ _ (h n idx hq)
 
 theorem encExports_spec {g : GraphVal} {ss : SpecSt} (exps : List (Str × Nat)) {st st' : EncSt}
+    (hdn : ∀ e ∈ exps, ∀ n, g.node? e.2 = some n → n.isDefinition = true → n.exportName = some e.1)
     (hs : Sync st) (hn : NodesOk g ss st) (he : encExports g exps st = .ok st') :
     Sync st' ∧ Ext (G st) (G st') ∧ st'.nodeIdx = st.nodeIdx ∧
       (G st').w = { (G st).w with exports := (G st).w.exports ++ exps.filterMap (specExport1 g ss) } := by
@@ -33,13 +34,18 @@ theorem encExports_spec {g : GraphVal} {ss : SpecSt} (exps : List (Str × Nat)) 
     | none => simp [hnode] at he
     | some n =>
       simp only [hnode] at he
-      by_cases hdef : n.isDefinition = true ∧ n.exportName = some name
-      · simp only [hdef, and_self, ↓reduceIte] at he
-        have := ih hs hn he
+      have hdn' : ∀ e ∈ rest, ∀ n, g.node? e.2 = some n → n.isDefinition = true → n.exportName = some e.1 :=
+        fun e he' => hdn e (List.mem_cons_of_mem _ he')
+      by_cases hd : n.isDefinition = true
+      · have hdef : n.isDefinition = true ∧ n.exportName = some name :=
+          ⟨hd, hdn (name, id) (List.mem_cons_self ..) n hnode hd⟩
+        simp only [hd, ↓reduceIte] at he
+        have := ih hdn' hs hn he
         refine ⟨this.1, this.2.1, this.2.2.1, ?_⟩
         rw [this.2.2.2]
         simp [List.filterMap_cons, specExport1, hnode, hdef]
-      · simp only [hdef, ↓reduceIte] at he
+      · have hdef : ¬ (n.isDefinition = true ∧ n.exportName = some name) := fun h => hd h.1
+        simp only [hd, Bool.false_eq_true, ↓reduceIte] at he
         cases hq : natGet st.nodeIdx id with
         | none => simp [hq] at he
         | some idx =>
@@ -50,7 +56,7 @@ theorem encExports_spec {g : GraphVal} {ss : SpecSt} (exps : List (Str × Nat)) 
           have hext := emit_ext st (.export name n.ty.kind idx)
           have hn1 : NodesOk g ss (st.emit (.export name n.ty.kind idx)).1 :=
             hn.ext hext (emit_nodeIdx _ _)
-          have := ih hs1 hn1 he
+          have := ih hdn' hs1 hn1 he
           refine ⟨this.1, hext.trans this.2.1, by rw [this.2.2.1, emit_nodeIdx], ?_⟩
           rw [this.2.2.2, emit_w, wstep_export_w, hH.2]
           simp [List.filterMap_cons, specExport1, hnode, hdef]
